@@ -1,5 +1,5 @@
 """Bound tables: which harness instances make up each property's quick / thorough tier (DESIGN §4)."""
-from vdriver import Inst
+from vdriver import Inst, run_tool
 
 PLAN = {}
 
@@ -24,6 +24,73 @@ PLAN["C20"] = {
         Inst("c20::serde_deserialize_roundtrip", sub="C20 serde", timeout=300,
              functions=("<Move as serde::Deserialize>::deserialize (derive)",), bounds="all 2^32 raw values"),
         Inst("c20::reach_witness", sub="vacuity", timeout=300, expect="fail"),
+    ],
+}
+
+
+# ---- C02 -------------------------------------------------------------------------------------------
+_c02_fn = ("State::by_performing_move", "State::new", "Board::new", "Board::piece_map/piece_occupancy/occupancy/colored_occupancy",
+           "Move accessors", "Move constructors (via the harness's canonical builder)", "Square::offset", "BitBoard::set/test",
+           "Color::backward/opposing_color", "ArrayMap index/clone")
+PLAN["C02"] = {
+    "feature": "c02",
+    "exhaustive": False,
+    "bounds": "no bound on the position: twelve free bitboards (disjoint, one king each, no pawn on ranks 1/8), symbolic side, "
+              "rights (consistent with homes), en-passant target (behind a just-double-stepped pawn), clocks < 2^32, symbolic "
+              "move coordinates restricted to pseudo-legal moves of a legal position; sequences by induction on the "
+              "legal-position invariant (asserted on the successor of every legal move)",
+    "outside": ["clocks >= 2^32", "State::by_performing_moves (runs compute_legal_moves; its three-way match is read, not decided)",
+                "moves that are not pseudo-legal in the position"],
+    "trusted": ["rustc / kani-compiler / CBMC", "reference rules in harness/common/rules.rs"],
+    "assumptions": ["position is a legal position (invariant of DESIGN §4.2)", "move is pseudo-legal per the reference rules"],
+    "insts": [
+        Inst("c02::step_pieces", sub="C02.a/b", timeout=1200, mem_gb=6, functions=_c02_fn, bounds="any legal position, any N/B/R/Q move"),
+        Inst("c02::step_king", sub="C02.a/b", timeout=1200, mem_gb=6, functions=_c02_fn, bounds="any legal position, any king move incl. castling"),
+        Inst("c02::step_pawn", sub="C02.a/b", timeout=1200, mem_gb=6, functions=_c02_fn, bounds="any legal position, any pawn move incl. ep and promotion"),
+        Inst("c02::ep_without_target_is_refused", sub="C02.a", timeout=600, functions=("State::by_performing_move",), bounds="any position without ep target"),
+        Inst("c02::coordinate_query", sub="C02.c", timeout=600, functions=("MoveQuery::by_moving_from_to", "MoveQuery::set_promotion", "MoveQuery::test"),
+             bounds="any position, any pseudo-legal move, any coordinate triple"),
+        Inst("c02::reach_witness", sub="vacuity", timeout=600, expect="fail"),
+    ],
+}
+
+# ---- C09 -------------------------------------------------------------------------------------------
+def gen_tables(workdir):
+    rc, out = run_tool("tabledump", ["/verif/harness/core/src/gen_tables.rs"], workdir)
+    if rc != 0:
+        return False, "tabledump failed (hook attacks::verif_hooks missing or /repo does not build):\n" + out[-2000:]
+    return True, ""
+
+
+_c09_stub_note = ("private initialisers compute_{rook,bishop}_magic_table, compute_{rook,bishop}_slide_masks, "
+                  "compute_{knight,king,pawn}_attacks replaced by tables dumped from a native run of those same "
+                  "initialisers on this tree (tools/tabledump, regenerated on this run)")
+_c09_fn = ("AttackGenerator::compute_rook_attacks", "AttackGenerator::compute_bishop_attacks",
+           "AttackGenerator::compute_queen_attacks", "lazy_static deref of ROOK/BISHOP_MAGIC_TABLE, *_SLIDE_MASKS, *_MAGICS",
+           "ArrayMap::index", "Vec::index (bounds check)")
+PLAN["C09"] = {
+    "feature": "c09",
+    "pregen": [gen_tables],
+    "exhaustive": True,
+    "bounds": "none on the inputs: all 2^64 occupancies for each of the 64 squares (sliders), all squares and both colours "
+              "(leapers); tables precomputed by the real initialisers run natively",
+    "outside": ["the table *initialisers* are executed natively, not symbolically (closed, input-free computations)"],
+    "trusted": ["a native run of the input-free initialisers yields what the same code means (deterministic, no unsafe)",
+                "rustc / kani-compiler / CBMC"],
+    "assumptions": [_c09_stub_note],
+    "insts": [Inst("gen_tables::sq%d::sliders" % i, sub="C09 sliders", timeout=900, mem_gb=3,
+                   functions=_c09_fn, stubs=("table initialisers -> natively dumped tables",),
+                   bounds="square %d, all 2^64 occupancies" % i) for i in range(64)] + [
+        Inst("c09::leapers", sub="C09 leapers", timeout=600, stubs=("table initialisers -> natively dumped tables",),
+             functions=("AttackGenerator::compute_knight_attacks", "AttackGenerator::compute_king_attacks",
+                        "AttackGenerator::compute_pawn_attacks"), bounds="all 64 squares, both colours"),
+        Inst("c09::dispatch_d4", sub="C09 dispatcher", timeout=900, stubs=("table initialisers -> natively dumped tables",),
+             functions=("AttackGenerator::compute",), bounds="square d4, all kinds, colours and occupancies"),
+        Inst("c09::lemma_bitboard_shift", sub="C09 lemma", timeout=600, unwind=9, functions=("BitBoard::shift",),
+             bounds="any board, |file|,|rank| <= 7"),
+        Inst("c09::lemma_square_offset", sub="C09 lemma", timeout=600, functions=("Square::offset",),
+             bounds="any square, |file|,|rank| <= 7"),
+        Inst("c09::reach_witness", sub="vacuity", timeout=600, expect="fail"),
     ],
 }
 
